@@ -62,16 +62,46 @@ type Monitors struct {
 	lastPull map[uuid.UUID]int64    // subscription id -> last pull / creation / ttl update
 	dlDone   map[uuid.UUID]bool     // deliveries already dead-lettered
 	Counts   map[string]int
+	// ordered deliveries whose predecessor link, when they were published, was not the newest
+	// same-key delivery of the subscription still inside its retention
+	linkMissing  map[uuid.UUID]bool
+	LinkMismatch []LinkMis
+}
+
+// LinkMis records where a wrong predecessor link was made (directs the violation search).
+type LinkMis struct {
+	At            int
+	Sub           string
+	PredPublished int64
 }
 
 func NewMonitors() *Monitors {
 	return &Monitors{pubs: map[uuid.UUID]*pubRecord{}, leases: map[uuid.UUID]*leaseRecord{}, acked: map[uuid.UUID]int64{},
 		lastSeek: map[uuid.UUID]int64{}, reopened: map[uuid.UUID]bool{}, handouts: map[uuid.UUID]int{}, snaps: map[string]*snapRecord{},
-		lastPull: map[uuid.UUID]int64{}, dlDone: map[uuid.UUID]bool{}, Counts: map[string]int{}}
+		lastPull: map[uuid.UUID]int64{}, dlDone: map[uuid.UUID]bool{}, Counts: map[string]int{}, linkMissing: map[uuid.UUID]bool{}}
+}
+
+// alsoViolates: an observation made by one property's monitor that contradicts the statement of
+// another property as well is reported under both.
+var alsoViolates = map[string][][2]string{
+	"C13/other-sub":                   {{"C02", "seek-other-sub"}},          // subscription independence
+	"C06/after-done":                  {{"C03", "dead-lettered-after-ack"}}, // an acknowledged message is never handed out again
+	"C13/snapshot-not-restored":       {{"C01", "lost-by-seek"}},            // a never-acknowledged delivery was retired
+	"C13/not-restored":                {{"C01", "lost-by-seek"}},
+	"C13/snapshot-later-not-restored": {{"C01", "lost-by-seek"}},
+	"C13/restore-times":               {{"C14", "retention-not-restarted"}},
+	"C13/row-lost":                    {{"C01", "lost"}},
+	"C06/forward-missing":             {{"C01", "forward-missing"}},
+	"C06/forward-filter":              {{"C02", "forward-filter"}, {"C07", "forward-filter"}},
+	"C06/wrong-target":                {{"C02", "wrong-target"}},
 }
 
 func (m *Monitors) fire(prop, sig, f string, a ...any) {
-	m.Findings = append(m.Findings, Finding{Prop: prop, Sig: sig, What: fmt.Sprintf(f, a...), At: m.idx})
+	what := fmt.Sprintf(f, a...)
+	m.Findings = append(m.Findings, Finding{Prop: prop, Sig: sig, What: what, At: m.idx})
+	for _, o := range alsoViolates[prop+"/"+sig] {
+		m.Findings = append(m.Findings, Finding{Prop: o[0], Sig: o[1], What: what, At: m.idx})
+	}
 }
 
 func isOpenRow(d *ent.Delivery, t int64) bool {
@@ -319,6 +349,44 @@ func (m *Monitors) Observe(idx int, r *Result) {
 					m.fire("C07", "filter-delivery", "published message n=%d attrs=%v was enqueued on subscription %s whose filter %q it does not satisfy", spec.N, spec.Attrs, s.Name, strOf(s.MessageFilter))
 				}
 			}
+			// predecessor link of the new ordered deliveries: the newest same-key delivery of the
+			// subscription that is still inside its retention (acknowledged or not)
+			if spec.Key != "" {
+				for did, d := range r.After {
+					if d.MessageID != id || r.Before[did] != nil {
+						continue
+					}
+					s := r.SubsBefore[d.SubscriptionID]
+					if s == nil || !s.OrderedDelivery {
+						continue
+					}
+					var exp *ent.Delivery
+					for oid, o := range r.After {
+						if oid == did || o.SubscriptionID != s.ID || !o.PublishedAt.Before(d.PublishedAt) || !o.ExpiresAt.After(d.PublishedAt) {
+							continue
+						}
+						om := r.Msgs[o.MessageID]
+						if om == nil || om.OrderKey == nil || *om.OrderKey != spec.Key {
+							continue
+						}
+						if exp == nil || o.PublishedAt.After(exp.PublishedAt) {
+							exp = o
+						}
+					}
+					m.Counts["link_checks"]++
+					want := uuid.Nil
+					if exp != nil {
+						want = exp.ID
+					}
+					if d.NotBeforeID != want {
+						m.Counts["link_mismatch"]++
+						m.linkMissing[did] = true
+						if exp != nil {
+							m.LinkMismatch = append(m.LinkMismatch, LinkMis{At: m.idx, Sub: strings.TrimPrefix(s.Name, SubName("")), PredPublished: ns(exp.PublishedAt)})
+						}
+					}
+				}
+			}
 		}
 	case "pull":
 		sub := liveSubByName(r.SubsBefore, SubName(op.Sub))
@@ -423,7 +491,11 @@ func (m *Monitors) Observe(idx int, r *Result) {
 						continue
 					}
 					sig := "overtake"
-					if m.reopened[oid] {
+					if m.linkMissing[d.ID] {
+						// the overtaking delivery was not linked behind its same-key predecessor when it was
+						// published although that predecessor was inside its retention: not the recorded finding
+						sig = "overtake-link-missing"
+					} else if m.reopened[oid] {
 						sig = "overtake-seek-reopened-predecessor"
 					}
 					m.fire("C05", sig, "ordered subscription %s delivered key %q message (delivery %s, published %d) while earlier same-key delivery %s (published %d, attempts %d) is outstanding", sub.Name, d.Key, d.ID, ns(b.PublishedAt), oid, ns(o.PublishedAt), o.Attempts)
@@ -525,6 +597,14 @@ func (m *Monitors) Observe(idx int, r *Result) {
 		m.checkUntouchedExcept(r, "C03", func(id uuid.UUID, b, a *ent.Delivery) bool { return containsID(r.Ids, id) && b.CompletedAt == nil })
 	case "dl_sweep":
 		m.checkDeadLetters(r, "sweep")
+		// the rows the sweep selected: none may be acknowledged or expired already
+		if ok {
+			for _, id := range r.Ids {
+				if b := r.Before[id]; b != nil && (b.CompletedAt != nil || ns(b.ExpiresAt) <= now) {
+					m.fire("C06", "after-done", "the sweep dead-lettered delivery %s although it was already acknowledged or expired", id)
+				}
+			}
+		}
 	case "seek_time":
 		sub := liveSubByName(r.SubsBefore, SubName(op.Sub))
 		if !ok || sub == nil {
@@ -640,6 +720,10 @@ func (m *Monitors) Observe(idx int, r *Result) {
 				if last, okp := m.lastPull[id]; okp && now <= last+int64(b.TTL) {
 					m.fire("C14", "expired-early", "subscription %s expired at t=%d although its last pull/creation was at %d and its TTL is %d", b.Name, now, last, int64(b.TTL))
 				}
+			}
+			if b.DeletedAt != nil && a != nil && (a.DeletedAt == nil || !a.DeletedAt.Equal(*b.DeletedAt)) {
+				// a deleted subscription whose deletion time keeps moving is never old enough to be pruned
+				m.fire("C15", "deleted-again", "the expiry job changed the deletion time of the already deleted subscription %s (%d -> %s): it can never become old enough to be pruned", b.Name, ns(*b.DeletedAt), nsOpt(a.DeletedAt))
 			}
 		}
 	}
